@@ -43,7 +43,7 @@ PROPS = {
               expected_probes=["comparator-ties"]),
     "C04": e0("C04", "Oracle at every Append return: next == model heads, clock id == writer key, time > every held time, single head, refs sound and logarithmic.",
               expected_probes=["append-with-refs", "append-on-forked-log"]),
-    "C05": e0("C05", "Monitor: fingerprints of every entry of every replica never change; values grow by subsequence (strict orders); Len never decreases."),
+    "C05": e0("C05", "Monitor: fingerprints of every entry of every replica never change; values grow by subsequence (strict orders); Len never decreases. Codec drawn per run (default, link-encrypting, legacy pb); logs with another codec configuration try to merge live replicas, whose entries must stay byte-identical and verifiable."),
 }
 
 DSIM = "deterministic simulation with fault injection: "
@@ -78,9 +78,9 @@ PROPS.update({
     "C07": e0("C07", "Extra op: one signed field of an honest entry (in memory or decoded from its stored block) is corrupted (14 kinds); oracle: Verify fails."),
     "C08": e0("C08", "Monitors on every append/publish: cid == hash of stored bytes, read-back field equality (binary payloads, link-encrypting codec), re-encode == same cid, manifest stable and read back; plus cross-process digest comparison and golden vectors.",
               expected_probes=["readback-binary-payload"], cross_process=96),
-    "C15": e0("C15", "Extra op: Iterator on reached (forked) logs with generated option combinations, channel capacity 0..n, consumer paced by the event loop; oracle: model iterator.",
+    "C15": e0("C15", "Extra op: Iterator on reached (forked) logs - and on log objects truncated by a size-bounded merge - with generated option combinations, channel capacity 0..n, consumer paced by the event loop; oracle: model iterator.",
               expected_probes=["iter-amount-zero", "iter-amount-beyond-range", "iter-related-bounds"]),
-    "C16": e0("C16", "Extra op: size-bounded merges (bound 0..total+3) on scratch clones of pairs of reached logs; oracle: last min(n,total) of the model linearisation, heads, Len.",
+    "C16": e0("C16", "Extra op: size-bounded merges (bound 0..total+3, and the largest legal bounds up to MaxInt64) on scratch clones of pairs of reached logs; oracle: last min(n,total) of the model linearisation, heads, Len.",
               expected_probes=["bound-beyond-total", "bound-zero", "bounded-forked-result"]),
     "C18": e0("C18", "Writers use a link key; monitors scan every appended block for identifiers of every known entry (binary, multihash, 6 multibase forms) and for IPLD links; reader nodes with same/different/no key.",
               expected_probes=["linkkey-entry-with-links"]),
@@ -134,7 +134,7 @@ PROPS.update({
               level="fault_enumeration", expected_probes=["corrupt-block-still-decodes", "struct-mutations-enumerated-completely"]),
     "C20": dict(engine="E3", variant="plain", level="exploration", quick_s=30, thorough_s=300,
                 rule="keystore worlds: 1-3 (later more) keystore instances over one fault-injecting datastore, 8-32 events from {create, get, has, open new instance, bulk-create 129+ keys to overflow the LRU, CreateIdentity twice on the same/different instances}, Put/Get I/O errors; after every event every sampled id is checked on every instance against a map model. Non-trivial = a fault fired, an instance was opened or the cache overflowed.",
-                assumptions=["keys come from crypto/rand: relations are compared, never key bytes", "keystore operations are atomic events (Keystore is not goroutine-safe by contract)"],
+                assumptions=["key bytes come from a tape-seeded stream substituted for crypto/rand.Reader: relations are compared, never key bytes", "ids are flat names, paths and URIs (some sharing their last component)", "keystore operations are atomic events (Keystore is not goroutine-safe by contract)"],
                 expected_probes=["lru-eviction", "identity-across-instances"]),
 })
 
@@ -177,7 +177,7 @@ PROPS.update({
                 "state with a state the source held between the call and the merge instant (exact state sequences).",
                 assumptions=["recursive read-locking deadlocks are modelled only through TryLock polling of the real locks"],
                 expected_probes=["join-overlaps-source-mutation"]),
-    "C17": e0("C17", "Store image checked after every block write (closure of next/refs/heads of the new block; no block rewritten), every returned pointer (entry hash, manifest) reloaded from the image of that instant through the loaders under the fetch driver, single-replica and whole-system crashes with restart from durable pointers, failing block writes (disk error) on appends and publications, sample of all pointers reloaded from the final image.",
+    "C17": e0("C17", "Store image checked after every block write (closure of next/refs/heads of the new block; no block rewritten), every returned pointer (entry hash, manifest) reloaded from the image of that instant through the loaders under the fetch driver, single-replica and whole-system crashes with restart from durable pointers, failing block writes (disk error) on appends and publications, sample of all pointers reloaded from the final image; block removals are monitored (nothing a replica holds or a stored block links to may be removed), refused appends may re-create an entry another replica of the same writer holds.",
               level="fault_enumeration", quick_s=45,
               expected_probes=[]),
 })
@@ -203,6 +203,6 @@ for _p in ("C01", "C02", "C03", "C04", "C05"):
 
 # fetch engine and byzantine merges also under the race detector: a fifth of the worker slots runs the same
 # runs with the -race build (the library's own goroutines - fetch workers, verification workers - are real)
-for _p in ("C06", "C09", "C10", "C11", "C12"):
+for _p in ("C06", "C07", "C08", "C09", "C10", "C11", "C12", "C18"):
     PROPS[_p].setdefault("also", []).append(dict(prop=_p, variant="race", share=0.2))
     PROPS[_p]["rule"] += " A fifth of the runs execute under the race detector (a report kills the worker with exit 66 and is attributed to the run)."
